@@ -133,3 +133,20 @@ pub proof fn axiom_items_ref_slice<T>()
     ensures
         forall|s: &[T]| #[trigger] items_ref::<T, &[T]>(s) == s@,
 {}
+
+// std facts the pinned tree does not need, stated so that an edited tree that uses these common
+// functions is still decided instead of being rejected by the front end
+pub assume_specification[ char::is_ascii_control ](c: &char) -> (r: bool)
+    ensures
+        r == ((*c as u32) <= 0x1f || (*c as u32) == 0x7f),
+;
+
+pub assume_specification[ char::is_control ](c: char) -> (r: bool)
+    ensures
+        r == ((c as u32) <= 0x1f || (0x7f <= (c as u32) && (c as u32) <= 0x9f)),
+;
+
+pub assume_specification[ char::is_ascii ](c: &char) -> (r: bool)
+    ensures
+        r == ((*c as u32) <= 0x7f),
+;
